@@ -1,7 +1,8 @@
 CONSTANTS
   MaxLen = 2
   MaxBin = 5
+  MaxWords = 3
 SPECIFICATION LSpec
 INVARIANTS LawB64Inverse LawB64Decoder LawHexInverse LawHexDecoder LawScalInverse LawScalDecoder LawUrlInverse LawUrlDecoder
-           LawSums LawCheckValues LawMd5 LawAes LawSbox
+           LawSums LawSumBoundary LawCheckValues LawMd5 LawAes LawSbox
 CHECK_DEADLOCK FALSE
